@@ -200,9 +200,10 @@ def run(report, tier: str, seed: int, log_name: str = "serialize_vs_reference"):
             report.tool_error(f"cannot realise / generate values for {tn}: {e!r}")
             continue
         bad = [v for v in vals if not S.conforms(td, v, realm)]
-        if bad or not vals:
-            report.tool_error(f"value generator of {tn} produced {'no value' if not vals else 'a non-conforming value ' + repr(bad[0])}")
+        if bad:
+            report.tool_error(f"value generator of {tn} produced a non-conforming value {bad[0]!r}")
             continue
+        # (a type with contradictory constraints has no value: only its compilation is exercised)
         objish = has_obj(td)
         for optname, o in optsets.items():
             if not objish and any(k in o for k in ("exclude_none", "exclude_defaults", "exclude_unset", "additional_properties", "aliaser")):
